@@ -810,7 +810,7 @@ class C17(runner.Check):
                'harness/props/c17.py resolve_table: which states an event exits/enters (flat and non-parallel nested)')
 
     quick = (48, 400)
-    thorough = (128, 1000)
+    thorough = (128, 2000)
 
     def explore(self, tier, seed):
         nch, per = self.quick if tier == 'quick' else self.thorough
